@@ -29,4 +29,24 @@ def track (t : Int) (hor : Bool) : Nat → List S → List S
 
 def trackAll (t : Int) (hor : Bool) (l : List S) : List S := track t hor l.length l
 
+/-- src: ot_shape.rs::position_complex for a plan compiled on a font whose only layout table is `trak` (default shaper:
+    zero_marks BY_GDEF_LATE, no GPOS, fallback mark positioning on a font without outlines), on a buffer that already has its
+    default positions.  The steps that write positions, in the code's order:
+      position_by_plan            → `hb_aat_layout_track` (nothing else applies)
+      zero_mark_widths_by_gdef    (late)
+      zero_width_default_ignorables
+      position_finish_offsets     (no attachment: nothing)
+      position_marks              (fallback)
+    `after` is the place of the tracking step relative to the default-ignorable zeroing as the CURRENT TREE has it
+    (`Gen.TrakOrder.trackingAfterZeroing`, probed from the compiled crate): `false` = inside `position_by_plan` (the order
+    the property needs), `true` = between the zeroing and `position_finish_offsets`. -/
+def positionComplex (after : Bool) (c : Cfg) (s : Scratch) (bdir : Dir) (t : Int) (l : List S) : List G :=
+  let masks := l.map (·.2)
+  if after then
+    let g := zeroWidthDI c s (zeroMarkWidthsByGdef bdir.isForward (l.map (·.1)))
+    positionMarksFb bdir.isForward false ((trackAll t bdir.isHorizontal (g.zip masks)).map (·.1))
+  else
+    positionMarksFb bdir.isForward false
+      (zeroWidthDI c s (zeroMarkWidthsByGdef bdir.isForward ((trackAll t bdir.isHorizontal l).map (·.1))))
+
 end RbModel.Trak
